@@ -808,8 +808,9 @@ package query
 //@   ensures imagesWritten == old(imagesWritten) + 1
 //@   modifies imagesWritten
 //@ func (*Transaction).Commit
-//@   property C01 C10 C11 C02
+//@   property C01 C10 C11 C02 C20
 //@   requires tx != nil && swapsStarted == 0
+//@   ensures [commit-drops-the-table-cache] result == nil ==> cacheCleans > old(cacheCleans)
 //@   loop 1 invariant swapsStarted == 0
 //@   loop 2 invariant swapsStarted == 0
 //@   assert after call endingLineBreak: [ending-break-follows-the-file] !(exportOptions.Format == option.FIXED && exportOptions.SingleLine)
@@ -1310,3 +1311,38 @@ package query
 //@   ensures [cached-key-sits-in-its-column-slot] cacheRowOk(view, index)
 //@   loop 1 invariant cacheRowOk(view, index) && view.sortValuesInEachCell == old(view.sortValuesInEachCell) && view.RecordSet == old(view.RecordSet) && same(view.RecordSet[index], old(view.RecordSet[index]))
 //@   modifies *
+
+// ---------------------------------------------------------------------------------------------
+// C20 (second half): after COMMIT or ROLLBACK the next read sees the current file: both end by dropping the transaction's
+// table cache (ViewMap.Clean, counted by a ghost) on every path, whether or not the transaction changed anything.
+//@ ghost var cacheCleans int
+//@ func (ViewMap).Clean
+//@   trusted assumed: closes the handler of every cached view and empties the cache (sync.Map)
+//@   ghostset cacheCleans = cacheCleans + 1
+//@   modifies * except F:query.ReferenceScope. F:query.Transaction. F:query.View. F:query.FileInfo.
+//@ func (*Transaction).ReleaseResources
+//@   property C20
+//@   ensures [cache-dropped] cacheCleans == old(cacheCleans) + 1
+//@   modifies *
+//@ func (*Transaction).Rollback
+//@   property C20 C01
+//@   ensures [rollback-drops-the-table-cache] cacheCleans > old(cacheCleans)
+//@   modifies *
+
+// ---------------------------------------------------------------------------------------------
+// C01: ROLLBACK of a temporary table puts back the header and the rows of its restore point, whatever was changed.
+//@ func (Header).Copy
+//@   property C01
+//@   ensures [same-fields] len(result) == len(h) && fresh(result) && forall(k, 0, len(h), result[k].Column == h[k].Column && result[k].View == h[k].View && result[k].Number == h[k].Number && result[k].IsFromTable == h[k].IsFromTable)
+//@   loop 1 invariant 0 <= $i && $i <= len(h) && len(header) == len(h) && fresh(header)
+//@   loop 1 invariant forall(k, 0, $i, header[k].Column == h[k].Column && header[k].View == h[k].View && header[k].Number == h[k].Number && header[k].IsFromTable == h[k].IsFromTable)
+//@   loop 1 modifies header[*]
+//@   modifies nothing
+//@ func (*View).Restore
+//@   property C01
+//@   requires view != nil && view.FileInfo != nil
+//@   ensures [header-is-that-of-the-restore-point] len(view.Header) == len(view.FileInfo.restorePointHeader) &&
+//@       forall(k, 0, len(view.Header), view.Header[k].Column == view.FileInfo.restorePointHeader[k].Column && view.Header[k].View == view.FileInfo.restorePointHeader[k].View)
+//@   ensures [rows-are-those-of-the-restore-point] len(view.RecordSet) == len(view.FileInfo.restorePointRecordSet) &&
+//@       forall(k, 0, len(view.RecordSet), len(view.RecordSet[k]) == len(view.FileInfo.restorePointRecordSet[k]) && forall(q, 0, len(view.RecordSet[k]), view.RecordSet[k][q] == view.FileInfo.restorePointRecordSet[k][q]))
+//@   modifies view.Header, view.RecordSet, fresh
